@@ -31,7 +31,7 @@ def sj(l):
 
 
 SCENARIOS_Q = [('exec -', 30, 2), ('exec 1', 45, 3), ('exec 2', 55, 3), ('exec 1,1', 70, 4), ('exec 2,1', 80, 4),
-               ('exec 0,3', 80, 4), ('futraw', 16, 2), ('futcopy 0', 26, 2), ('periodic', 30, 2), ('locker', 30, 3), ('prefs', 70, 2), ('ssd 2 0 1', 50, 2), ('ssd 2 1 0', 50, 2), ('ssd 2,1 0,0 2', 70, 3), ('pool 1', 70, 3), ('pool 2', 85, 3), ('pool 3', 100, 3), ('futcopy 1', 40, 3), ('futcopy 2', 50, 4),
+               ('exec 0,3', 80, 4), ('futraw', 16, 2), ('futcopy 0', 26, 2), ('periodic', 30, 2), ('locker', 30, 3), ('prefs', 70, 2), ('prefs2', 70, 3), ('prefsj', 40, 2), ('term', 90, 3), ('ssd 2 0 1', 50, 2), ('ssd 2 1 0', 50, 2), ('ssd 2,1 0,0 2', 70, 3), ('pool 1', 70, 3), ('pool 2', 85, 3), ('pool 3', 100, 3), ('futcopy 1', 40, 3), ('futcopy 2', 50, 4),
                ('execre 1 1', 60, 3), ('execre 2 1', 75, 3), ('execre 1,1 1,1', 90, 4),
                ('ss 2 0 2', 25, 2), ('ss 1 1 0', 25, 2), ('ss 2 1 1', 40, 2), ('ss 3 2 0', 40, 2), ('ss 1,1 0,0 1', 40, 3), ('ss 2,1 1,1 2', 60, 3)]
 SCENARIOS_T = SCENARIOS_Q + [('execre 2,1 2,0', 100, 4), ('ss 2,2 2,1 3', 90, 3), ('ss 1,1,1 1,0,1 2', 80, 4), ('exec 3', 65, 3), ('exec 1,1,1', 95, 5), ('exec 2,2', 90, 4), ('exec 3,0,2', 110, 5)]
